@@ -48,6 +48,16 @@ Round 3 (each a probe: a deterministic function of a json-able parameter record,
   in the call stack, with the root logger at DEBUG and dead stdout / stderr, with failing calls (wrong lengths / values /
   types on every entry point) in between, with the global `random` reseeded, and by ONE child `python -O` whose first calls
   are failing ones; all answers must equal the plain ones.
+Round 4:
+* argument forms (argtype:*): the same field value handed to a constructor as another Python type / shape the signature accepts —
+  objects that carry more than is serialised (datetime.time with microseconds / tzinfo / fold, a datetime where a date is expected),
+  subclasses (time, date, datetime, float, int, IntEnum, bool, str, bytes, dict / OrderedDict / defaultdict, RadioIP), numpy.float64 /
+  numpy.bool_, the other member of a Union (octets for Union[bytes, X], the bare int for Union[int, Enum]), numbers of other numeric
+  types on the grid (int, Decimal, Fraction, exact numpy.float32), other buffers for opaque octets (bytearray, memoryview), RadioIP
+  objects made by other paths of the library; for every service x opcode every argument x every form one at a time, several at once,
+  the HRNP / HSTRP wrapper arguments too; the PDU must serialise to the octets of the PDU built from the plain values, report that
+  length, parse back to the same fields and nest to the hand-written packets; the GPS forms are answered by the model as well
+  (`arg.gps`, Props/C12d).  A fifth of the LP reports of the random stream and some history steps use rich time / date objects too.
 """
 import collections
 import copy
@@ -61,12 +71,14 @@ import re
 import subprocess
 import sys
 import tempfile
-from datetime import date, time
+import decimal
+import fractions
+from datetime import date, datetime, time, timedelta, timezone
 
 from common import impl_error
 
 PROP = "C12"
-MODULES = ["C12", "C12a", "C12b", "C12c"]
+MODULES = ["C12", "C12a", "C12b", "C12c", "C12d"]
 GEN = ["Hytera"]
 
 TESTS = os.path.join(os.environ.get("VERIF_REPO") or "/repo", "okdmr/tests/dmrlib/hytera")
@@ -464,9 +476,11 @@ class Gps:
     def real(self):
         d = self.d
         tm, dt = d["tm"], d["dt"]
+        rich = d.get("rich") or {}  # the time / date handed over as objects that carry more than is serialised (rich_time / rich_date)
         return L.lp.GPSData(
-            data_valid="A" if d["valid"] else "V", greenwich_time=NUL6 if tm is None else time(*tm),
-            greenwich_date=NUL6 if dt is None else date(2000 + dt[2], dt[1], dt[0]), north_south="N" if d["north"] else "S",
+            data_valid="A" if d["valid"] else "V", greenwich_time=NUL6 if tm is None else (rich_time(time(*tm), rich["time"]) if rich.get("time") else time(*tm)),
+            greenwich_date=NUL6 if dt is None else (rich_date(date(2000 + dt[2], dt[1], dt[0]), rich["date"]) if rich.get("date") else date(2000 + dt[2], dt[1], dt[0])),
+            north_south="N" if d["north"] else "S",
             latitude=d["lat4"] / 10000, east_west="E" if d["east"] else "W", longitude=d["lon4"] / 10000,
             speed_knots=float(d["speed"]), direction=d["direction"],
         )
@@ -516,6 +530,11 @@ class Case:
 
     def expected(self) -> str:
         return kw_tuple(self.svc, self.kw)
+
+    @property
+    def rich(self):
+        g = self.kw.get("gpsdata")
+        return g.d.get("rich") if isinstance(g, Gps) else None
 
 
 def kw_tuple(svc, kw) -> str:
@@ -652,8 +671,9 @@ def gen_blob(rng, sizes):
 NUL6 = b"\x00" * 6  # the only way to construct a GPSData without time / date (the "absent" wire form)
 
 
-def gen_gps(rng, speed_mode):
-    """speed_mode: 'fit' (absent or d.d), 'over' (format longer than three characters)"""
+def gen_gps(rng, speed_mode, rich_p=0.0):
+    """speed_mode: 'fit' (absent or d.d), 'over' (format longer than three characters); rich_p: how often the time / date are handed
+    over as objects that carry more than is serialised (microseconds, tzinfo, fold, a datetime for the date, subclasses)"""
     tm = None if rng.random() < 0.2 else (rng.choice([0, 23, rng.randrange(24)]), rng.choice([0, 59, rng.randrange(60)]), rng.choice([0, 59, rng.randrange(60)]))
     if rng.random() < 0.2:
         dt = None
@@ -671,7 +691,12 @@ def gen_gps(rng, speed_mode):
         if len(format(sp, "03")) <= 3:
             sp = 10.0
     di = rng.choice([0, 0, 1, 9, 10, 99, 100, 359, rng.randrange(360)])
-    return Gps(valid=rng.random() < 0.5, tm=tm, dt=dt, north=rng.random() < 0.5, lat4=lat4, east=rng.random() < 0.5, lon4=lon4, speed=float(sp), direction=di)
+    g = Gps(valid=rng.random() < 0.5, tm=tm, dt=dt, north=rng.random() < 0.5, lat4=lat4, east=rng.random() < 0.5, lon4=lon4, speed=float(sp), direction=di)
+    if rich_p and rng.random() < rich_p:
+        r = gen_rich(rng, g)
+        if r:
+            g.d["rich"] = r
+    return g
 
 
 def gen_rrs(rng):
@@ -684,7 +709,7 @@ def gen_rrs(rng):
     ))
 
 
-def gen_lp(rng, speed_mode="fit"):
+def gen_lp(rng, speed_mode="fit", rich_p=0.0):
     lp = L.lp
     S = lp.LocationProtocolSpecificService
     op = rng.choice([S.StandardRequest, S.StandardReport, S.StandardReport])
@@ -692,7 +717,7 @@ def gen_lp(rng, speed_mode="fit"):
     if op == S.StandardReport or speed_mode == "over":
         kw["opcode"] = op if speed_mode != "over" else S.StandardReport
         kw["result"] = rng.choice([c.value for c in lp.LocationProtocolResultCodes])
-        kw["gpsdata"] = gen_gps(rng, speed_mode)
+        kw["gpsdata"] = gen_gps(rng, speed_mode, rich_p)
     return Case("LP", kw)
 
 
@@ -893,6 +918,8 @@ def input_of(p, extra=None, case=None):
             d["fields"] = exp
         if case.text is not None:
             d["text_as"] = "str" if case.text.as_str else "octets"
+        if case.rich:
+            d["rich"] = case.rich
     d["service"] = d["fields"].split(" ")[0]
     if isinstance(p, L.lp.LocationProtocol) and p.specific_service == L.lp.LocationProtocolSpecificService.StandardReport:
         d["speed"] = float(p.gpsdata.speed_knots)
@@ -1111,8 +1138,11 @@ def hstrp_fields(s):
 
 def one_pdu(ctx, rng, p, kind, pairs, sample=False, nest=True, case=None):
     inp = input_of(p, case=case)
-    desc = (kind, inp["fields"], inp.get("text_as"))
+    desc = (kind, inp["fields"], inp.get("text_as")) + ((json.dumps(inp["rich"], sort_keys=True),) if inp.get("rich") else ())
     ctx.count("pdu:" + kind.split(":")[0])
+    if inp.get("rich"):
+        for k in inp["rich"]:
+            ctx.count("argtype:stream-rich-" + k)
     if case is not None:
         check_built(ctx, p, inp)
         if case.text is not None:
@@ -1152,6 +1182,8 @@ def build_case(ctx, c):
         inp = {"service": c.svc, "fields": safe(c.expected)}
         if c.text is not None:
             inp["text_as"] = "str" if c.text.as_str else "octets"
+        if c.rich:
+            inp["rich"] = c.rich
         ctx.fail("construct-raises", inp, f"constructing an in-range {c.svc} PDU raised {p}", actual=repr(p))
         return None
     return p
@@ -1225,9 +1257,10 @@ def dec(e):
     if "float" in e:
         return float(e["float"])
     if "time" in e:
-        return None if e["time"] is None else time(*e["time"])
+        return None if e["time"] is None else (rich_time(time(*e["time"]), e["rich"]) if e.get("rich") else time(*e["time"]))
     if "date" in e:
-        return None if e["date"] is None else date(2000 + e["date"][2], e["date"][1], e["date"][0])
+        d0 = None if e["date"] is None else date(2000 + e["date"][2], e["date"][1], e["date"][0])
+        return rich_date(d0, e["rich"]) if (d0 is not None and e.get("rich")) else d0
     if "chr" in e:
         return e["chr"]
     raise TypeError("cannot decode " + repr(e))
@@ -1436,14 +1469,16 @@ def mutation(rng, st):
         P = L.lp
         S = P.LocationProtocolSpecificService
         c += [setv("request_id", pick_int(rng, 2**32 - 1))] + ip_steps(rng, "radio_ip")
-        c += [setv("gpsdata", gen_gps(rng, "fit"))] * 2
+        c += [setv("gpsdata", gen_gps(rng, "fit", 0.3))] * 2
         if st.own_gps:
             c += [setv("specific_service", S.StandardRequest if p.specific_service == S.StandardReport else S.StandardReport)] * 3
             g = [("direction", rng.choice([0, 1, 9, 10, 99, 100, 359])), ("data_valid", enc(rng.choice(["A", "V"]))), ("north_south", enc(rng.choice(["N", "S"]))),
                  ("east_west", enc(rng.choice(["E", "W"]))), ("latitude", enc(rng.randrange(90000001) / 10000)), ("longitude", enc(rng.randrange(180000001) / 10000)),
                  ("speed_knots", enc(rng.choice([0.0, 0.1, 9.9, 5.0, rng.randrange(1, 100) / 10]))),
                  ("greenwich_time", {"time": rng.choice([None, [rng.randrange(24), rng.randrange(60), rng.randrange(60)]])}),
-                 ("greenwich_date", {"date": rng.choice([None, [rng.randrange(1, 29), rng.randrange(1, 13), rng.randrange(100)]])})]
+                 ("greenwich_time", {"time": [rng.randrange(24), rng.randrange(60), rng.randrange(60)], "rich": gen_rich_time(rng)}),
+                 ("greenwich_date", {"date": rng.choice([None, [rng.randrange(1, 29), rng.randrange(1, 13), rng.randrange(100)]])}),
+                 ("greenwich_date", {"date": [rng.randrange(1, 29), rng.randrange(1, 13), rng.randrange(100)], "rich": gen_rich_date(rng)})]
             a, v = rng.choice(g)
             c += [{"op": "gps-set", "attr": a, "value": v}] * 3
         if p.specific_service == S.StandardReport:
@@ -1846,7 +1881,7 @@ def abbr(x, n=400):
     return x
 
 
-PROBE_KEYS = ("service", "nesting", "hstrp", "hrnp", "fields", "text_as", "speed", "alias", "object", "after", "stack_remaining",
+PROBE_KEYS = ("service", "nesting", "hstrp", "hrnp", "fields", "text_as", "speed", "alias", "object", "after", "stack_remaining", "argtype", "rich",
               "ambient", "history", "fields0", "origin", "layer", "item")
 
 
@@ -2930,7 +2965,652 @@ def child_result(ch):
         shutil.rmtree(ch["dir"], ignore_errors=True)
 
 
-PROBES = {"provenance": probe_provenance, "alias": probe_alias, "size": probe_size}
+# ------------------------------------------------------------------------------------------------
+# round 4 — the same field value handed over as another Python type / shape (argtype:*)
+#
+# Every constructor argument has a KIND (what the signature says it takes); every kind has FORMS: other Python objects that denote the
+# same serialised value —
+#   * objects that carry MORE than is serialised: datetime.time with microseconds / tzinfo / fold, a datetime (date + time of day, naive
+#     or aware) where a date is expected;
+#   * subclasses: of time / date / datetime / float / int (IntEnum, bool, a plain subclass) / str / bytes / dict (OrderedDict,
+#     defaultdict) / RadioIP, numpy.float64 (a float), numpy.bool_ for a flag;
+#   * the other member of a Union the signature names: octets for Union[bytes, X] (time, date, coordinates, speed, direction, request id,
+#     radio ip, result, opcode, GPS record, RCP ids, HRNP version / header / data), the bare int for Union[int, Enum];
+#   * numbers of the other numeric types for a float on the 10^-4 grid: int, Decimal, Fraction, numpy.float32 (when exact);
+#   * other buffer types for opaque octets: bytearray, memoryview;
+#   * a RadioIP made by another path of the library (id as octets, from_ip, from_bytes little-endian).
+# One probe = one PDU (field tuple) + a list of (path, form) substitutions (+ substitutions in the HRNP / HSTRP wrapper arguments); the PDU
+# built from the substituted arguments must serialise to the octets of the PDU built from the plain values, report that length, parse back
+# to the same fields, and nest in HRNP / HSTRP to the packets written out by hand.  The GPS argument forms are also answered by the model
+# (`arg.gps` lines: Model/Hdap.lean TimeArg / DateArg / NumArg, theorems in Props/C12d.lean).
+
+
+class NotApplicable(Exception):
+    pass
+
+
+class TimeSub(time):
+    pass
+
+
+class DateSub(date):
+    pass
+
+
+class DateTimeSub(datetime):
+    pass
+
+
+class FloatSub(float):
+    pass
+
+
+class IntSub(int):
+    pass
+
+
+class StrSub(str):
+    pass
+
+
+class BytesSub(bytes):
+    pass
+
+
+class DictSub(dict):
+    pass
+
+
+def tz_of(minutes):
+    return None if minutes is None else timezone(timedelta(minutes=minutes))
+
+
+def rich_time(t, r):
+    """the same wall-clock h:m:s as an object that carries more: microseconds, a UTC offset, fold, a subclass"""
+    cls = TimeSub if r.get("sub") else time
+    return cls(t.hour, t.minute, t.second, r.get("us", 0), tzinfo=tz_of(r.get("tz")), fold=r.get("fold", 0))
+
+
+def rich_date(d, r):
+    """the same calendar day as a datetime (time of day, microseconds, UTC offset) or a subclass of date"""
+    if r.get("tod") is None:
+        return DateSub(d.year, d.month, d.day) if r.get("sub") else d
+    h, m, s, us = r["tod"]
+    return (DateTimeSub if r.get("sub") else datetime)(d.year, d.month, d.day, h, m, s, us, tzinfo=tz_of(r.get("tz")), fold=r.get("fold", 0))
+
+
+TZ_MINUTES = [0, 60, -60, 330, -480, 840, -720, 1, -1, 1439, -1439, 345]
+MICROS = [1, 999999, 500000, 100000, 999, 1000]
+
+
+def gen_rich_time(rng):
+    r = {}
+    k = rng.random()
+    if k < 0.55:
+        r["us"] = rng.choice(MICROS + [rng.randrange(1, 10**6)])
+    if k > 0.4:
+        r["tz"] = rng.choice(TZ_MINUTES)
+    if rng.random() < 0.15:
+        r["fold"] = 1
+    if rng.random() < 0.15:
+        r["sub"] = True
+    return r or {"us": 1}
+
+
+def gen_rich_date(rng):
+    r = {"tod": [rng.choice([0, 23, rng.randrange(24)]), rng.choice([0, 59, rng.randrange(60)]), rng.choice([0, 59, rng.randrange(60)]), rng.choice([0] + MICROS)]}
+    if rng.random() < 0.4:
+        r["tz"] = rng.choice(TZ_MINUTES)
+    if rng.random() < 0.2:
+        r["sub"] = True
+    if rng.random() < 0.15:
+        r = {"sub": True}
+    return r
+
+
+def gen_rich(rng, gps):
+    """a rich descriptor for the time / date a Gps specification value holds (None when it holds neither)"""
+    r = {}
+    if gps.d["tm"] is not None and rng.random() < 0.8:
+        r["time"] = gen_rich_time(rng)
+    if gps.d["dt"] is not None and (not r or rng.random() < 0.4):
+        r["date"] = gen_rich_date(rng)
+    return r or None
+
+
+def np():
+    try:
+        import numpy  # noqa
+        return numpy
+    except Exception:  # noqa
+        raise NotApplicable("numpy is not installed")
+
+
+def int_enum(v):
+    return enum.IntEnum("Code", {"V": v}).V
+
+
+def need(cond):
+    if not cond:
+        raise NotApplicable()
+
+
+def ascii_num(v, width_fmt):
+    return format(v, width_fmt).encode("ascii")
+
+
+def int_forms(octets=None):
+    """forms of an int argument; octets = (width, byteorder) when the signature also takes bytes"""
+    f = {
+        "bool": lambda v, rng: (need(v in (0, 1)), bool(v))[1],
+        "IntEnum": lambda v, rng: int_enum(v),
+        "int-subclass": lambda v, rng: IntSub(v),
+    }
+    if octets:
+        f["octets"] = lambda v, rng: v.to_bytes(octets[0], octets[1])
+        f["octets-subclass"] = lambda v, rng: BytesSub(v.to_bytes(octets[0], octets[1]))
+    return f
+
+
+def enum_int_forms(octets=None):
+    """a member where Union[int, Enum] / Union[bytes, Enum] is accepted: the bare value"""
+    f = {}
+    if octets:
+        f["octets"] = lambda m, rng: ev(m).to_bytes(octets[0], octets[1])
+    else:
+        f["int-value"] = lambda m, rng: ev(m)
+        f["IntEnum-value"] = lambda m, rng: int_enum(ev(m))
+        f["bool-value"] = lambda m, rng: (need(ev(m) in (0, 1)), bool(ev(m)))[1]
+    return f
+
+
+def coord_forms(fmt):
+    def exact32(v, rng):
+        x = np().float32(v)
+        need(float(x) == v)
+        return x
+
+    return {
+        "int": lambda v, rng: (need(float(v).is_integer()), int(v))[1],
+        "bool": lambda v, rng: (need(v in (0.0, 1.0)), bool(v))[1],
+        "numpy.float64": lambda v, rng: np().float64(v),
+        "numpy.float32-exact": exact32,
+        "float-subclass": lambda v, rng: FloatSub(v),
+        "Decimal": lambda v, rng: decimal.Decimal(round(v * 10000)) / 10000,
+        "Fraction": lambda v, rng: fractions.Fraction(round(v * 10000), 10000),
+        "octets": lambda v, rng: ascii_num(v, fmt),
+        "octets-unpadded": lambda v, rng: ascii_num(v, ".4f"),
+    }
+
+
+def time_form(**r):
+    return lambda v, rng: (need(isinstance(v, time)), rich_time(v, {k: (x(rng) if callable(x) else x) for k, x in r.items()}))[1]
+
+
+def date_form(**r):
+    return lambda v, rng: (need(isinstance(v, date)), rich_date(v, {k: (x(rng) if callable(x) else x) for k, x in r.items()}))[1]
+
+
+_us = lambda rng: rng.choice(MICROS + [rng.randrange(1, 10**6)])  # noqa
+_tz = lambda rng: rng.choice(TZ_MINUTES)  # noqa
+_tod = lambda rng: [rng.randrange(24), rng.randrange(60), rng.randrange(60), rng.choice([0] + MICROS)]  # noqa
+
+FORMS = {
+    "flag": {"int": lambda v, rng: int(v), "numpy.bool_": lambda v, rng: np().bool_(v)},
+    "int": int_forms(),
+    "int|be4": int_forms((4, "big")),
+    "int|be3": int_forms((3, "big")),
+    "int|be2": int_forms((2, "big")),
+    "int|le4": int_forms((4, "little")),
+    "int|bytes1": int_forms((1, "big")),
+    "enum|int": enum_int_forms(),
+    "enum|be2": enum_int_forms((2, "big")),
+    "lit": {"str-subclass": lambda v, rng: StrSub(v)},
+    "time": {
+        "microsecond-1": time_form(us=1), "microsecond-999999": time_form(us=999999), "microsecond": time_form(us=_us),
+        "tz-utc": time_form(tz=0), "tz-offset": time_form(tz=_tz), "tz-offset+microsecond": time_form(tz=_tz, us=_us),
+        "fold": time_form(fold=1), "fold+microsecond": time_form(fold=1, us=_us), "subclass": time_form(sub=True), "subclass+microsecond+tz": time_form(sub=True, us=_us, tz=_tz),
+        "from-datetime.time()": lambda v, rng: (need(isinstance(v, time)), datetime(2024, 2, 29, v.hour, v.minute, v.second, _us(rng), tzinfo=tz_of(_tz(rng))).time())[1],
+        "from-datetime.timetz()": lambda v, rng: (need(isinstance(v, time)), datetime(2024, 2, 29, v.hour, v.minute, v.second, _us(rng), tzinfo=tz_of(_tz(rng))).timetz())[1],
+        "octets": lambda v, rng: (need(isinstance(v, time)), v.strftime("%H%M%S").encode("ascii"))[1] if isinstance(v, time) else BytesSub(v),
+    },
+    "date": {
+        "datetime": date_form(tod=_tod), "datetime-aware": date_form(tod=_tod, tz=_tz), "datetime-midnight": date_form(tod=[0, 0, 0, 0]), "datetime-23:59:59.999999": date_form(tod=[23, 59, 59, 999999]),
+        "subclass": date_form(sub=True), "datetime-subclass": date_form(tod=_tod, sub=True),
+        "octets": lambda v, rng: ("%02d%02d%02d" % (v.day, v.month, v.year - 2000)).encode("ascii") if isinstance(v, date) else BytesSub(v),
+    },
+    "lat": coord_forms("09.4f"),
+    "lon": coord_forms("010.4f"),
+    "speed": {
+        "numpy.float64": lambda v, rng: np().float64(v), "float-subclass": lambda v, rng: FloatSub(v),
+        "octets": lambda v, rng: b"\x00\x00\x00" if v <= 0 else (need(len(format(v, "03")) == 3), format(v, "03").encode("ascii"))[1],
+    },
+    "dir": dict(int_forms(), octets=lambda v, rng: b"\x00\x00\x00" if v == 0 else (need(v < 1000), b"%03d" % v)[1]),
+    "text": {"subclass": lambda v, rng: StrSub(v) if isinstance(v, str) else BytesSub(v)},
+    "blob": {"bytes-subclass": lambda v, rng: (need(v is not None), BytesSub(v))[1], "bytearray": lambda v, rng: (need(v is not None), bytearray(v))[1],
+             "memoryview": lambda v, rng: (need(v is not None), memoryview(bytes(v)))[1]},
+    "dict": {"OrderedDict": lambda v, rng: collections.OrderedDict(v.items()), "dict-subclass": lambda v, rng: DictSub(v),
+             "defaultdict": lambda v, rng: collections.defaultdict(lambda: None, v)},
+    "class": {"subclass": lambda v, rng: "subclass"},
+}
+
+
+def ip_octets(d):
+    return bytes([d["subnet"]]) + d["radio_id"].to_bytes(3, "big")
+
+
+def ip_forms(with_octets):
+    class IPSub(L.RadioIP):
+        pass
+
+    f = {
+        "subclass": lambda d, rng: IPSub(radio_id=d["radio_id"], subnet=d["subnet"]),
+        "id-as-octets": lambda d, rng: L.RadioIP(radio_id=ip_octets(d)[1:], subnet=d["subnet"]),
+        "from_bytes": lambda d, rng: L.RadioIP.from_bytes(ip_octets(d)),
+        "from_bytes-little": lambda d, rng: L.RadioIP.from_bytes(ip_octets(d)[::-1], endian="little"),
+        "from_ip": lambda d, rng: L.RadioIP.from_ip(".".join(str(x) for x in ip_octets(d))),
+    }
+    if with_octets:
+        f["octets"] = lambda d, rng: ip_octets(d)
+        f["octets-subclass"] = lambda d, rng: BytesSub(ip_octets(d))
+    return f
+
+
+def gps_record(g) -> bytes:
+    """the 40-octet record of plain GPS arguments, written out by hand (NotApplicable when a field does not fit its width)"""
+    tm, dt = g["greenwich_time"], g["greenwich_date"]
+    lat, lon, sp, di = round(g["latitude"] * 10000), round(g["longitude"] * 10000), g["speed_knots"], g["direction"]
+    need(lat < 10**8 and lon < 10**9 and di < 1000)
+    spd = b"\x00\x00\x00" if sp <= 0 else repr(float(sp)).encode("ascii")
+    need(len(spd) == 3)
+    out = (g["data_valid"].encode() + (b"%02d%02d%02d" % (tm.hour, tm.minute, tm.second) if isinstance(tm, time) else NUL6)
+           + (b"%02d%02d%02d" % (dt.day, dt.month, dt.year - 2000) if isinstance(dt, date) else NUL6) + g["north_south"].encode()
+           + b"%04d.%04d" % divmod(lat, 10000) + g["east_west"].encode() + b"%05d.%04d" % divmod(lon, 10000) + spd + (b"\x00\x00\x00" if di == 0 else b"%03d" % di))
+    need(len(out) == 40)
+    return out
+
+
+def forms_of(kind):
+    if kind == "ip|bytes":
+        return ip_forms(True)
+    if kind == "ip":
+        return ip_forms(False)
+    if kind == "gps|bytes":
+        return {"octets": lambda g, rng: gps_record(g), "octets-subclass": lambda g, rng: BytesSub(gps_record(g))}
+    return FORMS[kind]
+
+
+ARG_KINDS = {
+    "RRS": {"is_reliable": "flag", "radio_ip": "ip|bytes", "result": "enum|int!", "renew_time_seconds": "int", "radio_state": "enum|int!"},
+    "LP": {"opcode": "enum|be2", "request_id": "int|be4", "radio_ip": "ip|bytes", "result": "int|be2", "gpsdata": "gps|bytes", "is_reliable": "flag"},
+    "GPS": {"data_valid": "lit", "greenwich_time": "time", "greenwich_date": "date", "north_south": "lit", "latitude": "lat", "east_west": "lit",
+            "longitude": "lon", "speed_knots": "speed", "direction": "dir"},
+    "TMP": {"source_ip": "ip", "destination_ip": "ip", "is_reliable": "flag", "is_confirmed": "flag", "has_option": "flag", "request_id": "int",
+            "text_data": "text", "option_data": "blob", "short_data": "blob"},
+    "RCP": {"opcode": "enum|be2", "raw_payload": "blob", "raw_opcode": "blob", "call_type": "enum|int", "target_id": "int|le4", "sender_id": "int|le4", "is_reliable": "flag",
+            "broadcast_type": "int", "raw_value": "blob", "broadcast_config_raw": "blob", "talker_alias_data": "blob", "status_change_settings": "dict",
+            "status_change_value": "int"},
+    "IP": {"radio_id": "int|be3", "subnet": "int"},
+    "HRNP": {"source": "int", "destination": "int", "block_number": "int", "packet_number": "int", "version": "int|bytes1", "header": "int|bytes1", "data": "hdap|bytes"},
+    "HSTRP": {"sn": "int", "version": "int", "option-data": "blob", "flags": "flag", "classes": "class"},
+}
+
+
+def arg_paths(svc, plan):
+    """[(path, kind)] of every argument of the plan that has other forms (nested constructor arguments as a.b); __class__: the PDU
+    class itself as a subclass"""
+    out = [("__class__", "class")]
+    for k, v in plan.items():
+        kind = ARG_KINDS[svc].get(k)
+        if kind is None or v is None or k == "__class__":
+            continue
+        if kind.endswith("!"):  # the plan holds the bare int of a Union[int, Enum] argument: the forms start from the member's value
+            kind = "int"
+        out.append((k, kind))
+        if isinstance(v, dict) and (v.get("__ip__") or v.get("__gps__")):
+            sub = "IP" if v.get("__ip__") else "GPS"
+            out += [(k + "." + k2, ARG_KINDS[sub][k2]) for k2 in v if k2 in ARG_KINDS[sub]]
+    return out
+
+
+def kind_of(svc, plan, path):
+    for p, k in arg_paths(svc, plan):
+        if p == path:
+            return k
+    raise KeyError(path)
+
+
+# forms today's code has no reading of, by (service, argument, form): not part of what the signature promises
+EXCLUDED_FORMS = {
+    ("RCP", "raw_opcode", "memoryview"): "get_opcode slices the raw opcode and puts it in front: memoryview + bytes is undefined (signature: bytes)",
+}
+
+
+def substitute(svc, plan, path, form, rng):
+    """replace one argument of the plan by another form of the same value; returns the object handed over"""
+    kind = kind_of(svc, plan, path)
+    if (svc, path, form) in EXCLUDED_FORMS:
+        raise NotApplicable(EXCLUDED_FORMS[(svc, path, form)])
+    keys = path.split(".")
+    holder = plan if len(keys) == 1 else plan[keys[0]]
+    if isinstance(holder, Made):
+        raise NotApplicable("the enclosing argument was replaced as a whole")
+    plain = holder.get(keys[-1]) if path == "__class__" else holder[keys[-1]]
+    if isinstance(plain, Made):
+        raise NotApplicable("already replaced")
+    v = forms_of(kind)[form](plain, rng)
+    holder[keys[-1]] = Made(v)
+    return v
+
+
+def copy_plan(plan):
+    return {k: (dict(v) if isinstance(v, dict) and (v.get("__ip__") or v.get("__gps__")) else v) for k, v in plan.items()}
+
+
+# ---- the model's reading of the GPS argument forms ----------------------------------------------------------------
+
+
+def tz_tok(t):
+    off = t.utcoffset() if isinstance(t, time) else t.utcoffset()
+    return "N" if off is None else str(int(off.total_seconds() // 60))
+
+
+def arg_token(k, v):
+    """the form of one GPSData constructor argument as the model reads it (None: a form the model has no reading of)"""
+    if k in ("data_valid", "north_south", "east_west"):
+        return b01(str(v) in ("A", "N", "E"))
+    if isinstance(v, (bytes, bytearray)):
+        return "b:" + hx(v)
+    if k == "greenwich_time":
+        return f"t:{v.hour}:{v.minute}:{v.second}:{v.microsecond}:{tz_tok(v)}:{v.fold}"
+    if k == "greenwich_date":
+        if isinstance(v, datetime):
+            return f"dt:{v.day}:{v.month}:{v.year - 2000}:{v.hour}:{v.minute}:{v.second}:{v.microsecond}:{tz_tok(v)}"
+        return f"d:{v.day}:{v.month}:{v.year - 2000}"
+    if k in ("latitude", "longitude"):
+        if isinstance(v, int):
+            return f"i:{int(v)}"
+        return f"f:{fixed4(v)}"
+    if k == "speed_knots":
+        return "f:" + speed_s(v)
+    if k == "direction":
+        return f"i:{int(v)}"
+    return None
+
+
+GPS_ORDER = ("data_valid", "greenwich_time", "greenwich_date", "north_south", "latitude", "east_west", "longitude", "speed_knots", "direction")
+
+
+def gps_arg_pair(gkw):
+    """model line for a GPSData built from these (materialised) constructor arguments and the real code's answer"""
+    toks = [safe(arg_token, k, gkw[k]) for k in GPS_ORDER]
+    if any(t is None or t.startswith("ERR") for t in toks):
+        return None
+
+    def go():
+        b = L.lp.GPSData(**gkw).as_bytes()
+        return hx(b) + " " + str(len(b))
+
+    return ("arg.gps " + " ".join(toks), safe(go))
+
+
+# ---- the probe ----------------------------------------------------------------------------------------------------
+
+
+def hrnp_by_hand(kw, inner: bytes) -> bytes:
+    head = bytes([kw.get("header", 0x7E), kw.get("version", 4), kw["block_number"], 0x00, kw["source"], kw["destination"]]) + kw["packet_number"].to_bytes(2, "big") + (12 + len(inner)).to_bytes(2, "big")
+    return head + spec_hrnp_checksum(head + inner).to_bytes(2, "big") + inner
+
+
+def probe_argtype(ctx, params, pairs):
+    """params: payload (field tuple), text_as, subs [[path, form]], hrnp {kw: plain ints, subs: [[arg, form]]}, hstrp {type, sn, version, options [[cmd, hex]], subs}, seed"""
+    pc = ProbeCtx(ctx, "argtype", params)
+    rng = random.Random(params["seed"])
+    svc, plan0 = ctor_plan(params["payload"], params.get("text_as", "octets"))
+    inp = {"fields": params["payload"], "service": svc, "argtype": params["subs"]}
+    if params.get("text_as"):
+        inp["text_as"] = params["text_as"]
+    p0 = build_plan(svc, copy_plan(plan0))
+    b0 = check_frame(pc, p0, inp)
+    if b0 is None:
+        return
+    plan1 = copy_plan(plan0)
+    handed = []
+    for path, form in params["subs"]:
+        handed.append((path, form, substitute(svc, plan1, path, form, rng)))
+        ctx.count(f"argtype:{kind_of(svc, plan0, path)}:{form}")
+    shown = [f"{path} as {form}: {v!r}"[:200] for path, form, v in handed]
+    snapshot = [bytes(v) if isinstance(v, (bytearray, memoryview)) else None for _p, _f, v in handed]
+    ctx.case(("argtype", params["payload"], params.get("text_as"), json.dumps([params["subs"], params.get("hrnp"), params.get("hstrp")], sort_keys=True), params["seed"]))
+    p1 = call(build_plan, svc, plan1)
+    if isinstance(p1, Exc):
+        pc.fail("argtype-construct-raises", inp, f"constructing the PDU from the same values handed over as other types raised {p1} ({'; '.join(shown)})", actual=repr(p1))
+        return
+    b1 = call(p1.as_bytes)
+    if isinstance(b1, Exc) or bytes(b1) != b0 or not isinstance(b1, (bytes, bytearray)):
+        pc.fail("argtype-bytes", inp, "the PDU built from the same field values handed over as other Python types does not serialise to the same octets (" + "; ".join(shown) + ")",
+                expected=b0.hex(), actual=repr(b1) if isinstance(b1, Exc) else bytes(b1).hex())
+        return
+    n1 = call(len, p1)
+    if n1 != len(b0):
+        pc.fail("len-mismatch", inp, "len(p) of the PDU built from other argument types differs from the number of bytes produced (" + "; ".join(shown) + ")", expected=len(b0), actual=repr(n1))
+    q = call(L.hdap.HDAP.from_bytes, bytes(b1))
+    if isinstance(q, Exc) or q is None:
+        pc.fail("parse-raises", inp, f"HDAP.from_bytes of the serialisation gave {q!r}", actual=repr(q))
+    else:
+        fq, f0 = safe(relevant_tuple, q), safe(relevant_tuple, p0)
+        if fq != f0:
+            pc.fail("roundtrip-fields", inp, "parsed fields differ from the fields the PDU was built from", expected=f0, actual=fq)
+        b2 = call(q.as_bytes)
+        if isinstance(b2, Exc) or b2 != b0:
+            pc.fail("roundtrip-bytes", inp, "parse then serialise does not reproduce the bytes", expected=b0.hex(), actual=repr(b2) if isinstance(b2, Exc) else b2.hex())
+    for (path, form, v), snap in zip(handed, snapshot):
+        if snap is not None and bytes(v) != snap:
+            pc.fail("argtype-argument-changed", inp, f"the {form} handed over as {path} was changed by building / serialising the PDU", expected=snap.hex(), actual=bytes(v).hex())
+    # GPS argument forms: the model's reading
+    if pairs is not None and isinstance(plan1.get("gpsdata"), dict):
+        pr = gps_arg_pair({k: materialise(x) for k, x in plan1["gpsdata"].items() if k != "__gps__"})
+        if pr is not None:
+            pairs.append(pr)
+    # ---- nested: HRNP / HSTRP around the PDU built from the other forms; the wrappers' own arguments in other forms too
+    H, S = L.hrnp, L.hstrp
+    hp = params.get("hrnp")
+    if hp is not None:
+        kw = dict(hp["kw"])
+        hi = dict(inp, nesting="HRNP", hrnp=dict(kw, forms=hp["subs"]))
+        want = hrnp_by_hand(kw, b0)
+        real = dict(kw, opcode=H.HRNPOpcodes.DATA, data=p1)
+        if "header" in real:
+            real["header"] = bytes([real["header"]])
+        if "version" in real:
+            real["version"] = bytes([real["version"]])
+        for arg, form in hp["subs"]:
+            ctx.count(f"argtype:hrnp-{arg}:{form}")
+            if arg == "__class__":
+                real["__class__"] = True
+            elif arg == "data":
+                real["data"] = {"octets": lambda: bytes(b1), "octets-subclass": lambda: BytesSub(b1)}[form]()
+            elif arg in ("version", "header") and form == "int":
+                real[arg] = kw[arg]
+            else:
+                real[arg] = forms_of(ARG_KINDS["HRNP"][arg])[form](kw[arg], rng)
+        h = call(subclass_of(H.HRNP) if real.pop("__class__", None) else H.HRNP, **real)
+        hb = call(h.as_bytes) if not isinstance(h, Exc) else h
+        if isinstance(hb, Exc):
+            pc.fail("hrnp-serialise-raises", hi, f"HRNP around the PDU raised {hb}", actual=repr(hb))
+        else:
+            if hb != want:
+                pc.fail("argtype-hrnp-bytes", hi, "the HRNP packet around a PDU built from other argument types differs from the packet written out by hand (" + "; ".join(shown) + ")", expected=want.hex(), actual=hb.hex())
+            hl = call(len, h)
+            if hl != len(want):
+                pc.fail("hrnp-length", hi, "len() of the HRNP packet differs from the octets written out by hand", expected=len(want), actual=repr(hl))
+            h2 = call(H.HRNP.from_bytes, hb)
+            if isinstance(h2, Exc) or not h2.checksum_correct or call(h2.as_bytes) != hb:
+                pc.fail("roundtrip-bytes", hi, "HRNP parse then serialise does not reproduce the bytes (or the checksum is not verified)", expected=hb.hex(), actual=repr(h2))
+    sp = params.get("hstrp")
+    if sp is not None:
+        si = dict(inp, nesting="HSTRP", hstrp=sp)
+        optv = [(member(S.HSTRPOptionType, c), bytes.fromhex(d)) for c, d in sp["options"]]
+        want = b"2B" + bytes([sp["version"], sp["type"]]) + sp["sn"].to_bytes(2, "big") + spec_tlv([(c.value, d) for c, d in optv]) + b0
+        real = {"sn": sp["sn"], "version": sp["version"]}
+        dform = None
+        flagform = None
+        OptCls, TypeCls, PktCls = S.HSTRPOptions, S.HSTRPPacketType, S.HSTRP
+        for arg, form in sp["subs"]:
+            ctx.count(f"argtype:hstrp-{arg}:{form}")
+            if arg == "option-data":
+                dform = form
+            elif arg == "flags":
+                flagform = form
+            elif arg == "classes":
+                OptCls, TypeCls, PktCls = subclass_of(OptCls), subclass_of(TypeCls), subclass_of(PktCls)
+            else:
+                real[arg] = forms_of(ARG_KINDS["HSTRP"][arg])[form](sp[arg], rng)
+        o = OptCls()
+        for c, d in optv:
+            o.add_option(c, d if dform is None else FORMS["blob"][dform](d, rng))
+        bits = [bool((sp["type"] >> i) & 1) for i in (5, 4, 3, 2, 1, 0)]
+        if flagform is not None:
+            bits = [FORMS["flag"][flagform](x, rng) for x in bits]
+        s = call(lambda: PktCls(pkt_type=TypeCls(*bits), options=o, payload=p1, **real))
+        sb = call(s.as_bytes) if not isinstance(s, Exc) else s
+        if isinstance(sb, Exc):
+            pc.fail("hstrp-serialise-raises", si, f"HSTRP around the PDU raised {sb}", actual=repr(sb))
+        else:
+            if sb != want:
+                pc.fail("argtype-hstrp-bytes", si, "the HSTRP packet around a PDU built from other argument types differs from the packet written out by hand (" + "; ".join(shown) + ")", expected=want.hex(), actual=sb.hex())
+            if consistent(S.HSTRPPacketType.from_bytes(bytes([sp["type"]])), len(optv), True):
+                s2 = call(S.HSTRP.from_bytes, sb)
+                if isinstance(s2, Exc) or s2 is None or call(s2.as_bytes) != sb:
+                    pc.fail("roundtrip-bytes", si, "HSTRP parse then serialise does not reproduce the bytes", expected=sb.hex(), actual=repr(s2))
+    # afterwards the plain PDU still answers the same (nothing was cached under a key the two objects share)
+    if call(p0.as_bytes) != b0 or call(len, p0) != len(b0):
+        pc.fail("held-object-changed", inp, "the PDU built from the plain values serialises differently after the one built from other argument types was used", expected=b0.hex(), actual=repr(call(p0.as_bytes)))
+
+
+def wrapper_params(rng, subs_p=0.0):
+    """plain HRNP / HSTRP arguments (+ with probability subs_p some of them in another form)"""
+    S = L.hstrp
+    kw = dict(source=pick_int(rng, 255, (0x20,)), destination=pick_int(rng, 255, (0x10,)), block_number=pick_int(rng, 255), packet_number=pick_int(rng, 65535))
+    if rng.random() < 0.4:
+        kw["version"] = rng.choice([0, 1, 2, 3, 4])
+    if rng.random() < 0.2:
+        kw["header"] = 0x7E
+    hs = []
+    if rng.random() < subs_p:
+        for arg in rng.sample(sorted(kw) + ["data", "__class__"], rng.choice([1, 1, 2, 3])):
+            if arg == "__class__":
+                hs.append([arg, "subclass"])
+                continue
+            kind = ARG_KINDS["HRNP"][arg]
+            names = ["octets", "octets-subclass"] if arg == "data" else (["int"] + [n for n in FORMS[kind] if not n.startswith("octets")] if arg in ("version", "header") else sorted(FORMS[kind]))
+            form = rng.choice(names)
+            if form == "bool" and kw[arg] not in (0, 1):
+                form = "IntEnum"
+            hs.append([arg, form])
+    k = rng.choice([0, 1, 2, 3])
+    spec = gen_option_list(rng, k)
+    t = gen_pkt_type(rng, k, True)
+    sp = {"type": t.as_bytes()[0], "sn": pick_int(rng, 65535), "version": rng.choice([0, 0, 1, 255]), "options": [[c.value, d.hex()] for c, d in spec], "subs": []}
+    if rng.random() < subs_p:
+        for arg in rng.sample(["sn", "version", "option-data", "flags", "classes"], rng.choice([1, 1, 2])):
+            kind = ARG_KINDS["HSTRP"][arg]
+            form = rng.choice(sorted(FORMS[kind])) if arg != "flags" else "int"  # bitarray takes ints, not numpy.bool_
+            if form == "bool" and sp.get(arg) not in (0, 1):
+                form = "int-subclass"
+            sp["subs"].append([arg, form])
+    return {"kw": kw, "subs": hs}, sp
+
+
+def run_argtype(ctx, rng, pairs):
+    """every service x opcode: every argument x every form, one at a time; then several at once; the wrappers' own arguments"""
+    gens = [("RRS", gen_rrs, 5), ("LP", gen_lp, 2), ("TMP", gen_tmp, 8), ("RCP", gen_rcp, 17)]
+
+    def one(params):
+        r = call(probe_argtype, ctx, params, pairs)
+        if isinstance(r, Exc):
+            if r.s == "ERR NotApplicable":
+                ctx.count("argtype:not-applicable")
+                return False
+            ctx.fail("argtype-construct-raises", {"probe": "argtype", "params": params, "fields": params["payload"], "service": params["payload"].split(" ")[0]},
+                     f"a PDU of in-range values handed over as other Python types could not be built / used: {r}", actual=repr(r))
+        return True
+
+    for _round in range(ctx.budget(1, 5)):
+        for svc, g, n_ops in gens:
+            seen = {}
+            for _ in range(60 * n_ops):
+                c = g(rng)
+                key = c.kw["opcode"]
+                if key in seen and (svc != "LP" or rng.random() < 0.9):
+                    continue
+                t = safe(c.expected)
+                if not t.startswith("ERR"):
+                    seen[key] = (t, c)
+                if len(seen) == n_ops:
+                    break
+            for key, (t, c) in seen.items():
+                text_as = "str" if (c.text is not None and c.text.as_str) else "octets"
+                _svc, plan = ctor_plan(t, text_as)
+                paths = arg_paths(svc, plan)
+                base = {"payload": t, "text_as": text_as}
+                # one argument at a time, every form
+                for path, kind in paths:
+                    for form in sorted(forms_of(kind)):
+                        hp, sp = wrapper_params(rng)
+                        one(dict(base, subs=[[path, form]], hrnp=hp, hstrp=sp, seed=rng.randrange(2**32)))
+                # several at once (an application that uses its own types throughout), wrappers in other forms too
+                for _k in range(3):
+                    subs = []
+                    for path, kind in rng.sample(paths, min(len(paths), rng.choice([2, 3, 5, len(paths)]))):
+                        if any(path.startswith(p + ".") or p.startswith(path + ".") for p, _f in subs):
+                            continue
+                        subs.append([path, rng.choice(sorted(forms_of(kind)))])
+                    hp, sp = wrapper_params(rng, 0.8)
+                    seed = rng.randrange(2**32)
+                    # drop the substitutions that do not apply to this value (bool for an id above 1 …)
+                    ok = []
+                    for path, form in subs:
+                        try:
+                            substitute(svc, copy_plan(plan), path, form, random.Random(0))
+                            ok.append([path, form])
+                        except NotApplicable:
+                            pass
+                        except BaseException:  # noqa  (reported by the probe itself)
+                            ok.append([path, form])
+                    if ok:
+                        ctx.count("argtype:several-at-once")
+                        one(dict(base, subs=ok, hrnp=hp, hstrp=sp, seed=seed))
+    # the time / date forms against the clock boundaries (h:m:s at 00:00:00 / 23:59:59 / noon, every form)
+    S = L.lp.LocationProtocolSpecificService
+    for tm in ((0, 0, 0), (23, 59, 59), (12, 0, 0), (9, 5, 7), (rng.randrange(24), rng.randrange(60), rng.randrange(60))):
+        for dt in ((1, 1, 0), (31, 12, 99), (29, 2, 24)):
+            g = gen_gps(rng, "fit")
+            g.d.update(tm=tm, dt=dt)
+            t = safe(Case("LP", dict(opcode=S.StandardReport, request_id=pick_int(rng, 2**32 - 1), radio_ip=gen_ip(rng), is_reliable=rng.random() < 0.5, result=0, gpsdata=g)).expected)
+            for form in sorted(FORMS["time"]):
+                for dform in rng.sample(sorted(FORMS["date"]), 2) + [None]:
+                    subs = [["gpsdata.greenwich_time", form]] + ([["gpsdata.greenwich_date", dform]] if dform else [])
+                    hp, sp = wrapper_params(rng)
+                    one({"payload": t, "text_as": "octets", "subs": subs, "hrnp": hp if dform is None else None, "hstrp": sp if dform is None else None, "seed": rng.randrange(2**32)})
+    # every GPS argument x every form on values where every form applies (integral / 0 / 1 coordinates, direction 0 / 1, absent time / date, speed 0)
+    bases = [dict(lat4=0, lon4=0, speed=0.0, direction=0, tm=None, dt=None), dict(lat4=10000, lon4=10000, speed=0.1, direction=1), dict(lat4=47000000, lon4=179000000, speed=9.9, direction=359),
+             dict(lat4=89599999, lon4=179599999, speed=5.0, direction=7), dict(lat4=12345000, lon4=100000000, speed=0.5, direction=10), {}]
+    for _round in range(ctx.budget(1, 4)):
+        for bd in bases:
+            g = gen_gps(rng, "fit")
+            g.d.update(bd)
+            t = safe(Case("LP", dict(opcode=S.StandardReport, request_id=pick_int(rng, 2**32 - 1), radio_ip=gen_ip(rng), is_reliable=rng.random() < 0.5,
+                                     result=rng.choice([c.value for c in L.lp.LocationProtocolResultCodes]), gpsdata=g)).expected)
+            _svc, plan = ctor_plan(t)
+            for path, kind in arg_paths("LP", plan):
+                if path.startswith("gpsdata"):
+                    for form in sorted(forms_of(kind)):
+                        hp, sp = wrapper_params(rng)
+                        one({"payload": t, "text_as": "octets", "subs": [[path, form]], "hrnp": hp if rng.random() < 0.3 else None, "hstrp": sp if rng.random() < 0.3 else None, "seed": rng.randrange(2**32)})
+
+
+PROBES = {"provenance": probe_provenance, "alias": probe_alias, "size": probe_size, "argtype": probe_argtype}
 
 
 # ------------------------------------------------------------------------------------------------
@@ -3114,7 +3794,12 @@ def run(ctx):
         "wrappers and changed through one reference (6 kinds); size extremes inside one PDU (option chains up to 32 760 / 70 000 entries, payloads at "
         "65 535 - overhead, HRNP at 65 535, thresholds 2^8 / 2^12 / 2^15 / 2^16, one past each limit refused) with the model driven at these sizes; a fixed "
         "sample answered again 100 frames below the recursion limit, with logging at DEBUG and dead standard streams, with failing calls in between, with "
-        "`random` reseeded and in a child `python -O`. A case is one PDU (distinct = distinct field tuple and text hand-over), one history or one probe; all are non-trivial."
+        "`random` reseeded and in a child `python -O`. Round 4 argument forms: for every service x opcode every constructor argument x every other form of the "
+        "same value (time with microseconds / tzinfo / fold, datetime as date, subclasses of time / date / float / int / str / bytes / dict / RadioIP, IntEnum, bool, "
+        "numpy.float64 / bool_, octets for Union[bytes, X], bare int for Union[int, Enum], int / Decimal / Fraction coordinates, bytearray / memoryview blobs, RadioIP "
+        "from other library paths), one at a time and several at once, HRNP / HSTRP arguments too, all 13 time forms x clock boundaries, all GPS forms x 6 base records; "
+        "expected = octets of the PDU built from the plain values + hand-written wrappers + the model's reading of the GPS argument forms; rich time / date objects also "
+        "in 20 % of the LP reports of the random stream and in history steps. A case is one PDU (distinct = distinct field tuple and text hand-over), one history or one probe; all are non-trivial."
     )
     ctx.trusted_base += [
         "Lean 4.33 kernel",
@@ -3122,6 +3807,9 @@ def run(ctx):
         "hand-written model Model/Hdap.lean, Hrnp.lean, Hstrp.lean tied to the code by this run's correspondence",
         "Python float formatting / parsing of the LP ASCII fields is modelled over exact decimals (latitude/longitude in 10^-4 units, "
         "speed as its repr digits) and only cross-checked by the correspondence, not verified",
+        "the readings of the constructor argument forms (Model/Hdap.lean TimeArg / DateArg / CoordArg / SpeedArg / DirArg: strftime / format read h, m, s / d, m, y / the "
+        "numeric value only) are modelled and tied to the code by the `arg.gps` correspondence lines; forms of the other services' arguments are compared on the real code only "
+        "(octets of the PDU built from the plain values, which the model answers)",
         "Python's strict UTF-16-LE codec is modelled (Model/Hdap.lean utf16le, theorems in Props/C12c.lean) and compared on every text handed over as str "
         "(`tmp.text` lines) and with a hand-written encoder in the oracle; datetime.strftime, bitarray are trusted",
         "the model has no object state: histories are tied to it by evaluating the model on the object's current field values after every step",
@@ -3131,7 +3819,7 @@ def run(ctx):
     ]
     ctx.assumptions += [
         "in-range fields: enum-typed attributes are members, integers fit their wire width, GPS coordinates are multiples of 10^-4 "
-        "below 10^4 / 10^5 minutes, dates lie in 2000..2099, times have no microseconds, RCP raw payloads have the length their opcode fixes "
+        "below 10^4 / 10^5 minutes, dates lie in 2000..2099, RCP raw payloads have the length their opcode fixes "
         "(zone/channel request 5, id/ip reply 4, broadcast configuration 1+2n), an UnknownService raw opcode is not a known opcode, "
         "status-change settings are a dict (distinct targets)",
         "HSTRP packets are 'consistent': options only with the option bit and without the heartbeat bit; option bit without options only without payload",
@@ -3141,6 +3829,11 @@ def run(ctx):
         "sizes: payloads up to 65 535 octets, HRNP packets up to 65 535 octets, option data up to 255 octets are in range; one octet more is out of range and "
         "only has to be refused (or, if something is serialised, to be right): OverflowError / ValueError there is not a failure",
         "option list entries are 2-tuples (tuple or a tuple subclass) of (HSTRPOptionType member, bytes); lists / generators as entries, bytearray / memoryview data are not exercised",
+        "argument forms: a form is in range when the signature's type (or a subclass of it / the other member of its Union) describes it and its serialised meaning is the "
+        "plain value's: a time / date object may carry microseconds, a UTC offset (the wall-clock h:m:s is what is sent), fold, a time of day; forms that only work by duck "
+        "typing today (Decimal / Fraction / int coordinates, bytearray / memoryview octets, numpy.bool_ flags) are exercised where the unchanged code has a reading of them; "
+        "not exercised because the unchanged code has no reading of them and the signature does not name them: speed as int / Decimal / numpy.float32, direction as float / "
+        "numpy integer, text as bytearray, raw RCP opcode as memoryview, numpy.bool_ flags of an HSTRP packet type, -0.0 coordinates",
         "object histories keep every intermediate state in range (option data present before the option flag is set, an opcode is switched only to one whose "
         "fields the object holds) and never change the constructors' shared default objects (GPSData.zero(), the default settings dict) in place",
     ]
@@ -3161,6 +3854,11 @@ def run(ctx):
     if pairs is not None:
         ctx.correspond("provenance / shared sub-objects / size extremes", pairs)
         pairs = []
+    # -------- round 4: the same field values handed over as other Python types / shapes
+    run_argtype(ctx, rng, pairs)
+    if pairs is not None:
+        ctx.correspond("argument forms (GPS record from rich / other-typed arguments)", pairs)
+        pairs = []
     # -------- the special-token dictionary (every token x position x field, text as str and as octets)
     held = []  # objects kept alive with the bytes they serialised to: re-verified after everything else ran
     for kind, c in token_cases(rng):
@@ -3172,7 +3870,7 @@ def run(ctx):
                 held.append((kind, p, b, input_of(p, case=c)))
     # -------- generated PDUs
     n = ctx.budget(2500, 25000)
-    gens = [("RRS", gen_rrs), ("LP", gen_lp), ("TMP", gen_tmp), ("RCP", gen_rcp)]
+    gens = [("RRS", gen_rrs), ("LP", lambda r: gen_lp(r, rich_p=0.2)), ("TMP", gen_tmp), ("RCP", gen_rcp)]
     for i in range(n):
         for name, g in gens:
             c = g(rng)
@@ -3409,13 +4107,15 @@ def replay(obj):
             print("oracle:", kf)
         still = 1 if c.failures else 0
     elif isinstance(inp.get("fields"), str) and inp["fields"].split(" ")[0] in SERVICE:
-        p = call(build_from_tuple, inp["fields"], inp.get("text_as", "octets"))
+        p = call(build_from_tuple, inp["fields"], inp.get("text_as", "octets"), inp.get("rich"))
         if isinstance(p, Exc):
             print("cannot rebuild the PDU from its field tuple:", p)
             return 1
         c = ReplayCtx()
         if inp.get("text_as"):
             print("text handed to the constructor as", inp["text_as"])
+        if inp.get("rich"):
+            print("GPS time / date handed to the constructor as", safe(lambda: repr(p.gpsdata.greenwich_time)), "/", safe(lambda: repr(p.gpsdata.greenwich_date)))
         check_built(c, p, dict(inp))
         b = call(p.as_bytes)
         print("implementation as_bytes:", repr(b) if isinstance(b, Exc) else b.hex(), "len():", call(len, p))
@@ -3459,32 +4159,37 @@ def replay_hstrp(c, p, bb, i2, inp):
         check_hstrp(c, random.Random(s), p, bb, i2, None)
 
 
-def build_from_tuple(t: str, text_as: str = "octets"):
-    """inverse of pdu_tuple on the real classes (text_as = "str": the TMP text goes to the constructor as a str)"""
+def ip_plan(s):
+    return None if s == "N" else {"__ip__": True, "subnet": int(s.split(":")[0]), "radio_id": int(s.split(":")[1])}
+
+
+def ctor_plan(t: str, text_as: str = "octets"):
+    """(service, constructor arguments) a field tuple denotes — inverse of pdu_tuple.  Plain values; a RadioIP / GPSData argument is a
+    dict of ITS constructor arguments (marked __ip__ / __gps__) so that a single argument of the nested constructor can be replaced
+    by another form of the same value (argtype probes) before materialise() makes the real objects"""
     a = t.split(" ")
-    ip = lambda s: None if s == "N" else L.RadioIP(subnet=int(s.split(":")[0]), radio_id=int(s.split(":")[1]))  # noqa
     unhx = lambda s: b"" if s == "-" else bytes.fromhex(s)  # noqa
     if a[0] == "RRS":
         R = L.rrs
-        return R.RadioRegistrationService(opcode=R.RRSTypes(int(a[2])), is_reliable=a[1] == "1", radio_ip=ip(a[3]), result=int(a[4]), renew_time_seconds=int(a[5]), radio_state=int(a[6]))
+        return "RRS", dict(opcode=R.RRSTypes(int(a[2])), is_reliable=a[1] == "1", radio_ip=ip_plan(a[3]), result=int(a[4]), renew_time_seconds=int(a[5]), radio_state=int(a[6]))
     if a[0] == "LP":
         lp = L.lp
-        kw = dict(opcode=lp.LocationProtocolSpecificService(int(a[2])), is_reliable=a[1] == "1", request_id=int(a[3]), radio_ip=ip(a[4]))
+        kw = dict(opcode=lp.LocationProtocolSpecificService(int(a[2])), is_reliable=a[1] == "1", request_id=int(a[3]), radio_ip=ip_plan(a[4]))
         if len(a) > 5:
             tr = lambda s: None if s == "N" else [int(x) for x in s.split(":")]  # noqa
             tm, dt = tr(a[7]), tr(a[8])
             kw["result"] = int(a[5])
-            kw["gpsdata"] = lp.GPSData(data_valid="A" if a[6] == "1" else "V", greenwich_time=NUL6 if tm is None else time(*tm),
-                                       greenwich_date=NUL6 if dt is None else date(2000 + dt[2], dt[1], dt[0]), north_south="N" if a[9] == "1" else "S",
-                                       latitude=int(a[10]) / 10000, east_west="E" if a[11] == "1" else "W", longitude=int(a[12]) / 10000,
-                                       speed_knots=float(a[13]), direction=int(a[14]))
-        return lp.LocationProtocol(**kw)
+            kw["gpsdata"] = {"__gps__": True, "data_valid": "A" if a[6] == "1" else "V", "greenwich_time": NUL6 if tm is None else time(*tm),
+                             "greenwich_date": NUL6 if dt is None else date(2000 + dt[2], dt[1], dt[0]), "north_south": "N" if a[9] == "1" else "S",
+                             "latitude": int(a[10]) / 10000, "east_west": "E" if a[11] == "1" else "W", "longitude": int(a[12]) / 10000,
+                             "speed_knots": float(a[13]), "direction": int(a[14])}
+        return "LP", kw
     if a[0] == "TMP":
         T = L.tmp
-        return T.TextMessageProtocol(opcode=T.TMPService(int(a[4])), is_reliable=a[1] == "1", is_confirmed=a[2] == "1", has_option=a[3] == "1", request_id=int(a[5]),
-                                     destination_ip=ip(a[6]), source_ip=ip(a[7]),
-                                     text_data="".join(chr(c) for c in spec_utf16le_decode(unhx(a[8]))) if text_as == "str" else unhx(a[8]), option_data=None if a[9] == "N" else unhx(a[9]),
-                                     result_code=None if a[10] == "N" else T.TMPResultCodes(int(a[10])), short_data=unhx(a[11]))
+        return "TMP", dict(opcode=T.TMPService(int(a[4])), is_reliable=a[1] == "1", is_confirmed=a[2] == "1", has_option=a[3] == "1", request_id=int(a[5]),
+                           destination_ip=ip_plan(a[6]), source_ip=ip_plan(a[7]),
+                           text_data="".join(chr(c) for c in spec_utf16le_decode(unhx(a[8]))) if text_as == "str" else unhx(a[8]), option_data=None if a[9] == "N" else unhx(a[9]),
+                           result_code=None if a[10] == "N" else T.TMPResultCodes(int(a[10])), short_data=unhx(a[11]))
     if a[0] == "RCP":
         C = L.rcp
         O = C.RCPOpcode
@@ -3518,5 +4223,53 @@ def build_from_tuple(t: str, text_as: str = "octets"):
             kw.update(status_change_settings={} if r[0] == "-" else {C.StatusChangeNotificationTargets(int(e.split(":")[0])): C.StatusChangeNotificationSetting(int(e.split(":")[1])) for e in r[0].split(",")})
         elif op == O.RadioStatusReport:
             kw.update(status_change_target=C.StatusChangeNotificationTargets(int(r[0])), status_change_value=int(r[1]))
-        return C.RadioControlProtocol(**kw)
+        return "RCP", kw
     raise ValueError("unknown tuple " + t)
+
+
+class Made:
+    """an argument that is already the real object (a substituted form): materialise() hands it over as it is"""
+
+    def __init__(self, v):
+        self.v = v
+
+
+def materialise(v):
+    """the real constructor argument of a plan value"""
+    if isinstance(v, Made):
+        return v.v
+    if isinstance(v, dict) and v.get("__ip__"):
+        return L.RadioIP(radio_id=materialise(v["radio_id"]), subnet=materialise(v["subnet"]))
+    if isinstance(v, dict) and v.get("__gps__"):
+        return L.lp.GPSData(**{k: materialise(x) for k, x in v.items() if k != "__gps__"})
+    return v
+
+
+_SUBCLASSES = {}
+
+
+def subclass_of(cls):
+    """an application's own subclass of a library class (nothing overridden)"""
+    if cls not in _SUBCLASSES:
+        _SUBCLASSES[cls] = type("App" + cls.__name__, (cls,), {})
+    return _SUBCLASSES[cls]
+
+
+def build_plan(svc, plan):
+    cls = Case.CLS[svc]()
+    if isinstance(plan.get("__class__"), Made):
+        cls = subclass_of(cls)
+    return cls(**{k: materialise(v) for k, v in plan.items() if k != "__class__"})
+
+
+def build_from_tuple(t: str, text_as: str = "octets", rich=None):
+    """the real PDU a field tuple denotes (text_as = "str": the TMP text goes to the constructor as a str; rich: the GPS time / date
+    handed over as objects that carry more than is serialised, see rich_time / rich_date)"""
+    svc, plan = ctor_plan(t, text_as)
+    if rich and isinstance(plan.get("gpsdata"), dict):
+        g = plan["gpsdata"]
+        if rich.get("time") and isinstance(g["greenwich_time"], time):
+            g["greenwich_time"] = rich_time(g["greenwich_time"], rich["time"])
+        if rich.get("date") and isinstance(g["greenwich_date"], date):
+            g["greenwich_date"] = rich_date(g["greenwich_date"], rich["date"])
+    return build_plan(svc, plan)
